@@ -65,28 +65,12 @@ private def encPyErr : PyErr → String
   | .fuel => "unsupported fuel"
   | .unsupported => "unsupported"
 
-private def run (f : String) (a : List PVal) : Option (PyM PVal) :=
-  match f, a with
-  | "html_escape", [x, y] => some (Generated.Src.html_escape G x y)
-  | "HTML_as_string", [x] => some (Generated.Src.HTML_as_string G x)
-  | "HTML_add", [x, y] => some (Generated.Src.HTML_add G x y)
-  | "HTML_radd", [x, y] => some (Generated.Src.HTML_radd G x y)
-  | "add", [x, y] => some (Generated.Src.pyAdd G x y)
-  | "normalize_text", [x] => some (Generated.Src.normalize_text G x)
-  | "normalize_attr_name", [x] => some (Generated.Src.normalize_attr_name G x)
-  | "normalize_attr_value", [x] => some (Generated.Src.normalize_attr_value G x)
-  | "TagAttrDict_setitem", [x, y, z] => some (Generated.Src.TagAttrDict_setitem G x y z)
-  | "TagAttrDict_update", [x, y, z] => some (Generated.Src.TagAttrDict_update G x y z)
-  | "Tag_get_html_string", [x, y, z] => some (Generated.Src.Tag_get_html_string G 100000 x y z)
-  | "TagList_get_html_string", [x, y, z, u, v] => some (Generated.Src.TagList_get_html_string G 100000 x y z u v)
-  | _, _ => none
-
 def srcOps : OpTable
   | "src" => some do
     let f ← next
     let a ← listOf pval
-    match run f a with
-    | none => throw s!"src: no translated function {f} of {a.length} arguments"
+    match Generated.Src.runByName G f a with
+    | none => pure "unsupported"      -- not translated (left the fragment) or unknown: no verdict
     | some r =>
       match r with
       | .ok v => pure ("ok " ++ encPVal v)
